@@ -53,6 +53,16 @@ fn oracle(s: &ProgScene<X>, t: &Trace) -> Vec<Violation> {
     let stopped_exit = an.exits.iter().find(|e| e.a == 0 && e.cb == Cb::Stopped).map(|e| e.idx);
     let graceful = matches!(term, Some((_, false))) && stopped_exit.is_some() && !an.role_failed(0, &s.roles[0].started);
     let op_at = |c: u8, i: u16| s.clients.get(c as usize).and_then(|cs| cs.ops.get(i as usize));
+    // join / consume yield the value or None - a failed actor's panic is not re-thrown into the owner
+    for o in &an.ops {
+        if o.res == Some(Res::Panicked) {
+            out.push(Violation {
+                clause: "join-yields-value-or-none",
+                key: format!("C17/owner-op-panicked/script={script:?}"),
+                detail: format!("client {} op {} {:?} panicked", o.c, o.i, op_at(o.c, o.i)),
+            });
+        }
+    }
     // expected final state
     let mut digest = DIGEST0;
     let mut handled = 0u32;
